@@ -634,7 +634,10 @@ class ContentsHandler(Handler):
                 {
                     "depth": h.depth,
                     "id": h.id,
-                    "title": [node.serialize() for node in h.title],
+                    "title": [
+                        node.serialize()
+                        for node in without_ids(deepcopy(list(h.title)))
+                    ],
                     "selector_ids": h.selector_ids,
                 }
                 for h in self.headings
